@@ -15,6 +15,8 @@ pub struct Shrinker<'a> {
     pub oracle: &'a mut Oracle,
     pub budget: usize,
     pub executions: usize,
+    /// wall-clock cap for one minimisation (a real clock, used only to stop spending time)
+    pub deadline: std::time::Instant,
 }
 
 fn same(v: &Violation, target: &Violation, content_phase: bool) -> bool {
@@ -35,7 +37,8 @@ fn same(v: &Violation, target: &Violation, content_phase: bool) -> bool {
 impl<'a> Shrinker<'a> {
     /// Execute a candidate; if the target violation persists return the violation and the recorded schedule.
     fn fails(&mut self, run: &E1Run, target: &Violation, content_phase: bool) -> Option<(Violation, Vec<u8>)> {
-        if self.executions >= self.budget {
+        if self.executions >= self.budget || std::time::Instant::now() > self.deadline {
+            self.executions = self.budget;
             return None;
         }
         self.executions += 1;
